@@ -274,19 +274,39 @@ def option_aliases(fn):
     return al
 
 
+_CMPTXT = {ast.Lt: '<', ast.Gt: '>', ast.LtE: '<=', ast.GtE: '>=', ast.Eq: '==', ast.NotEq: '=='}
+_CMPSWAP = {ast.Lt: ast.Gt, ast.Gt: ast.Lt, ast.LtE: ast.GtE, ast.GtE: ast.LtE, ast.Eq: ast.Eq, ast.NotEq: ast.NotEq}
+
+
 def tested_options(fns):
-    """Names of the options read inside branch conditions of the given methods."""
+    """Atoms of the branch conditions of the given methods: names of options read as booleans, and
+    (name, op, int) for comparisons of an option with an integer literal (same normalisation as lib_c25)."""
     names = set()
     for fn in fns:
         al = option_aliases(fn)
+
+        def optname(e):
+            if isinstance(e, ast.Subscript) and astx.const_str(e.slice) and astx.path(e.value) in al:
+                return astx.const_str(e.slice)
+            return None
         for n in astx.walk(fn.node):
             t = n.test if isinstance(n, (ast.If, ast.IfExp)) else None
             if t is None:
                 continue
-            for s in astx.walk(t):
-                if isinstance(s, ast.Subscript) and astx.const_str(s.slice) and astx.path(s.value) in al:
-                    names.add(astx.const_str(s.slice))
-    return sorted(names)
+            used = set()
+            for c in astx.walk(t):
+                if isinstance(c, ast.Compare) and len(c.ops) == 1 and type(c.ops[0]) in _CMPTXT:
+                    l, r, op = c.left, c.comparators[0], type(c.ops[0])
+                    if isinstance(l, ast.Constant):
+                        l, r, op = r, l, _CMPSWAP[op]
+                    if optname(l) and isinstance(r, ast.Constant) and isinstance(r.value, int) and \
+                            not isinstance(r.value, bool):
+                        names.add((optname(l), _CMPTXT[op], r.value))
+                        used.add(id(l))
+            for sub in astx.walk(t):
+                if optname(sub) and id(sub) not in used:
+                    names.add(optname(sub))
+    return sorted(names, key=repr)
 
 
 def helper_structs(repo):
@@ -347,11 +367,112 @@ def valuations(repo):
         raise AnalysisError('KSComp.compute tests no option: lower_flag / minimum handling not found')
     if len(names) > 4:
         raise AnalysisError(f'too many options tested: {names}')
+    cmp_opts = [k[0] for k in names if isinstance(k, tuple)]
+    if len(cmp_opts) != len(set(cmp_opts)):
+        raise AnalysisError(f'several comparisons of the same numeric option: {names}')
     return names, [dict(zip(names, bits)) for bits in itertools.product((False, True), repeat=len(names))]
 
 
 def fmt_val(v):
-    return ', '.join(f'{k}={v[k]}' for k in sorted(v))
+    return ', '.join((f'{k}={v[k]}' if isinstance(k, str) else f"({k[0]} {k[1]} {k[2]})={v[k]}") for k in sorted(v, key=repr))
+
+
+SINGLE = ('width', '==', 1)          # the aggregate of one column is that column: KS(c) = c, dKS/dc = 1
+KNOWN_ATOMS = {'lower_flag', 'minimum', SINGLE}
+
+
+def single_column(v):
+    return bool(v.get(SINGLE, False))
+
+
+def cached_atoms(p):
+    return sorted({a[1] for m in p.t for a, _ in m if X.is_cached(a)})
+
+
+STALE = ('%s: the value is a copy taken outside compute, so a change of the option after setup is ignored and the '
+         'result no longer refers to the current option value')
+
+
+def _bad_offset(bad, fc, st, tag, A, rem, cg):
+    if cached_atoms(rem):
+        bad(fc, st, f'[{tag}] the constraint array is offset by ' + STALE % X.show(rem), 'compute-upper')
+        return
+    if any(a != OPT_UPPER for m in rem.t for a, _ in m):
+        raise X.Unknown(st, f'offset {X.show(rem)} of the aggregated array not recognised')
+    bad(fc, st, f"[{tag}] the aggregate is taken of {X.show(A)}; 'upper' is not honoured (expected "
+        f"{'-' if cg < 0 else ''}(inputs['g'] - options['upper']))", 'compute-upper')
+
+
+def _raw_sink(it, tag_):
+    sinks = [(k, v) for k, v in it.sinks.items() if k[0] == tag_]
+    if len(sinks) != 1:
+        raise X.Unknown(None, f'{len(sinks)} stores into {tag_}')
+    (k, (num, st)), = sinks
+    return k[1], num, st
+
+
+def _parity_single(repo, out, bad, v, structs, fc, fp, tag):
+    """width == 1: KS(c, rho) = c and dKS/dc = 1 exactly, so compute must return (-1)^lower_flag * (g - upper)
+    and compute_partials its derivative, whichever path (helper or shortcut) the code takes."""
+    L = v.get('lower_flag', False)
+    want = -1 if L else 1
+
+    def degenerate(a):
+        if a[0] != 'call':
+            return None
+        shape = structs.get(a[1])
+        if a[2] is None:
+            return X.Poly.from_key(a[3][0])
+        if isinstance(shape, tuple) and shape[a[2]] == 'E':
+            return X.Poly.const(1)
+        raise X.Unknown(None, f'{a[1]}[{a[2]}] has no single-column meaning')
+    got = None
+    try:
+        _, it = run_component(repo, 'KSComp.compute', v, structs)
+        okey, num, st = _raw_sink(it, 'outputs')
+        if it.tested - KNOWN_ATOMS or okey != 'KS':
+            raise X.Unknown(st, f'behaviour depends on {sorted(it.tested - KNOWN_ATOMS, key=repr)} / output {okey!r}')
+        V = X.substitute(num.p, degenerate)
+        cg = V.t.get(((IN_G, 1),))
+        others = [m for m in V.t if any(a == IN_G for a, _ in m) and m != ((IN_G, 1),)]
+        if cg is None or others or abs(cg) != 1:
+            raise X.Unknown(st, f'single-column output {X.show(V)} is not +-(g - upper)')
+        got = cg
+        problems = 0
+        if cg != want:
+            problems += 1
+            bad(fc, st, f'[{tag}] with one column the aggregate is the column itself, so the output must be '
+                f"{'-' if want < 0 else ''}(inputs['g'] - options['upper']); the code returns {X.show(V)} (the sign "
+                'reversals of lower_flag / minimum are not applied on this path)', 'compute-single-column')
+        rem = V - X.Poly.atom(IN_G).scale(cg)
+        if rem != X.Poly.atom(OPT_UPPER).scale(-cg):
+            problems += 1
+            _bad_offset(bad, fc, st, tag, V, rem, cg)
+        if not problems:
+            out.ok(fc, st, f"[{tag}] outputs['KS'] = {X.show(V)} (single column)")
+    except X.Defect as d:
+        bad(fc, d.node, d.why, d.key)
+    except X.Unknown as u:
+        out.unsure(fc, u.node if isinstance(u.node, ast.AST) else None, f'[{tag}] {u.why}')
+    try:
+        _, it = run_component(repo, 'KSComp.compute_partials', v, structs)
+        pkey, num, st = _raw_sink(it, 'partials')
+        if it.tested - KNOWN_ATOMS:
+            raise X.Unknown(st, f'behaviour depends on {sorted(it.tested - KNOWN_ATOMS, key=repr)}')
+        P = X.substitute(num.p, degenerate)
+        c = P.const_value()
+        if c is None:
+            raise X.Unknown(st, f'single-column partial {X.show(P)} is not a constant')
+        ref = got if got is not None else want
+        if c != ref:
+            bad(fp, st, f'[{tag}] with one column the partial is {X.show(P)} but the derivative of the value returned '
+                f'by compute is {int(ref):+d}', 'partials-sign')
+        else:
+            out.ok(fp, st, f'[{tag}] partials{list(pkey)} = {X.show(P)} (single column)')
+    except X.Defect as d:
+        bad(fp, d.node, d.why, d.key)
+    except X.Unknown as u:
+        out.unsure(fp, u.node if isinstance(u.node, ast.AST) else None, f'[{tag}] {u.why}')
 
 
 @rule('C25.parity', floor=8)
@@ -374,14 +495,17 @@ def parity(repo, out):
         s_in = -1 if L != M else 1
         s_out = -1 if M else 1
         tag = fmt_val(v)
+        if single_column(v):
+            _parity_single(repo, out, bad, v, structs, fc, fp, tag)
+            continue
         # ---- compute
         actual = None
         try:
             _, it = run_component(repo, 'KSComp.compute', v, structs)
             okey, c, atom, num, st = parse_sink(it, 'outputs')
-            extra = it.tested - {'lower_flag', 'minimum'}
+            extra = it.tested - KNOWN_ATOMS
             if extra:
-                raise X.Unknown(st, f'behaviour depends on option(s) {sorted(extra)} not named by the property')
+                raise X.Unknown(st, f'behaviour depends on option(s) {sorted(extra, key=repr)} not named by the property')
             if atom[2] is not None or len(atom[3]) != 2:
                 raise X.Unknown(st, 'aggregate is not a (array, rho) helper returning one value')
             A, R = X.Poly.from_key(atom[3][0]), X.Poly.from_key(atom[3][1])
@@ -392,7 +516,10 @@ def parity(repo, out):
             actual = (atom[3], c * cg)
             problems = 0
             rs = R.single()
-            if rs is not None and rs[1] == ((OPT_RHO, 1),) and rs[0] >= 1:
+            if cached_atoms(R):
+                problems += 1
+                bad(fc, st, f'[{tag}] KS is evaluated with rho = ' + STALE % X.show(R), 'compute-rho')
+            elif rs is not None and rs[1] == ((OPT_RHO, 1),) and rs[0] >= 1:
                 pass   # KS with c*rho, c >= 1, is inside [ext, ext + ln(n)/rho] as well
             elif R.is_const() or (rs is not None and rs[1] == ((OPT_RHO, 1),)):
                 problems += 1
@@ -408,11 +535,8 @@ def parity(repo, out):
                     'compute-input-sign')
             rem = A - X.Poly.atom(IN_G).scale(cg)
             if rem != X.Poly.atom(OPT_UPPER).scale(-cg):
-                if any(a != OPT_UPPER for m in rem.t for a, _ in m):
-                    raise X.Unknown(st, f'offset {X.show(rem)} of the aggregated array not recognised')
                 problems += 1
-                bad(fc, st, f"[{tag}] the aggregate is taken of {X.show(A)}; 'upper' is not honoured (expected "
-                    f"{'-' if cg < 0 else ''}(inputs['g'] - options['upper']))", 'compute-upper')
+                _bad_offset(bad, fc, st, tag, A, rem, cg)
             if c != s_out:
                 problems += 1
                 bad(fc, st, f'[{tag}] the output is {int(c):+d} * KS(...), the property requires {s_out:+d} '
@@ -429,9 +553,9 @@ def parity(repo, out):
         try:
             _, it = run_component(repo, 'KSComp.compute_partials', v, structs)
             pkey, c, atom, num, st = parse_sink(it, 'partials')
-            extra = it.tested - {'lower_flag', 'minimum'}
+            extra = it.tested - KNOWN_ATOMS
             if extra:
-                raise X.Unknown(st, f'behaviour depends on option(s) {sorted(extra)} not named by the property')
+                raise X.Unknown(st, f'behaviour depends on option(s) {sorted(extra, key=repr)} not named by the property')
             if atom[2] is None or len(atom[3]) != 2 or abs(c) != 1:
                 raise X.Unknown(st, 'partial is not +-(one element of a derivative helper result)')
             if actual is None:
@@ -471,6 +595,8 @@ def grad(repo, out):
     fp = repo.func(KS, 'KSComp.compute_partials')
     pairs = set()
     for v in vals:
+        if single_column(v):
+            continue   # decided by C25.parity with KS(c) = c
         try:
             _, it = run_component(repo, 'KSComp.compute', v, structs)
             _, _, vatom, _, _ = parse_sink(it, 'outputs')
@@ -561,6 +687,8 @@ def pattern(repo, out):
     orders = set()
     pkeys = set()
     for v in vals:
+        if single_column(v):
+            continue
         try:
             _, it = run_component(repo, 'KSComp.compute_partials', v, structs)
             pkey, _, _, num, st = parse_sink(it, 'partials')
@@ -691,6 +819,19 @@ selftest(
     Mutant('parity-upper-after-negation', KS, "        con_val = inputs['g'] - opt['upper']\n" + _NEG_LOW,
            "        con_val = inputs['g']\n" + _NEG_LOW + "        con_val = con_val - opt['upper']\n", 'C25.parity'),
     Mutant('parity-half-rho', KS, "ks_val = KSfunction.compute(con_val, opt['rho'])", "ks_val = KSfunction.compute(con_val, 0.5 * opt['rho'])", 'C25.parity'),
+    Mutant('parity-rho-cached-in-setup', KS, "        units = opts['units']\n", "        units = opts['units']\n        self._rho = opts['rho']\n", 'C25.parity',
+           also=[(KS, "KSfunction.compute(con_val, opt['rho'])", "KSfunction.compute(con_val, self._rho)"),
+                 (KS, "KSfunction.derivatives(con_val, opt['rho'])[0]", "KSfunction.derivatives(con_val, self._rho)[0]")]),
+    Mutant('parity-rho-cached-partials-only', KS, "        units = opts['units']\n", "        units = opts['units']\n        self._rho = opts['rho']\n", 'C25.parity',
+           also=[(KS, "KSfunction.derivatives(con_val, opt['rho'])[0]", "KSfunction.derivatives(con_val, self._rho)[0]")]),
+    Mutant('parity-upper-cached-in-setup', KS, "        units = opts['units']\n", "        units = opts['units']\n        self._upper = self.options['upper']\n", 'C25.parity',
+           also=[(KS, "con_val = inputs['g'] - opt['upper']", "con_val = inputs['g'] - self._upper")]),
+    Mutant('parity-single-column-shortcut-early', KS, "        con_val = inputs['g'] - opt['upper']\n" + _NEG_LOW,
+           "        con_val = inputs['g'] - opt['upper']\n        if opt['width'] == 1:\n            outputs['KS'] = con_val\n            return\n" + _NEG_LOW, 'C25.parity'),
+    Mutant('parity-single-column-skips-output-negation', KS, _NEG_MIN + "\n        ks_val",
+           _NEG_MIN + "        if 1 == opt['width']:\n            outputs['KS'] = con_val\n            return\n\n        ks_val", 'C25.parity'),
+    Mutant('parity-single-column-partials-unsigned', KS, "        if self.options['lower_flag']:\n            derivs = -derivs",
+           "        if self.options['lower_flag'] and opt['width'] != 1:\n            derivs = -derivs", 'C25.parity'),
     # ---- pattern
     Mutant('pattern-fortran-flatten', KS, "partials['KS', 'g'] = derivs.flatten()", "partials['KS', 'g'] = derivs.flatten(order='F')", 'C25.pattern'),
     Mutant('pattern-transposed', KS, "partials['KS', 'g'] = derivs.flatten()", "partials['KS', 'g'] = derivs.T.flatten()", 'C25.pattern'),
@@ -732,6 +873,14 @@ selftest(
     Twin('variant-sharper-rho-consistent', KS, "ks_val = KSfunction.compute(con_val, opt['rho'])", "ks_val = KSfunction.compute(con_val, 2 * opt['rho'])",
          also=[(KS, "KSfunction.derivatives(con_val, opt['rho'])[0]", "KSfunction.derivatives(con_val, 2 * opt['rho'])[0]")]),
     Twin('twin-rho-local', KS, "        ks_val = KSfunction.compute(con_val, opt['rho'])", "        rho = opt['rho']\n        ks_val = KSfunction.compute(con_val, rho=rho)"),
+    Twin('twin-rho-live-accessor', KS, "    def compute(self, inputs, outputs):",
+         "    def _rho(self):\n        return self.options['rho']\n\n    def compute(self, inputs, outputs):",
+         also=[(KS, "KSfunction.compute(con_val, opt['rho'])", "KSfunction.compute(con_val, self._rho())"),
+               (KS, "KSfunction.derivatives(con_val, opt['rho'])[0]", "KSfunction.derivatives(con_val, self._rho())[0]")]),
+    Twin('twin-single-column-shortcut-correct', KS, "        ks_val = KSfunction.compute(con_val, opt['rho'])\n",
+         "        if opt['width'] == 1:\n            ks_val = con_val\n        else:\n            ks_val = KSfunction.compute(con_val, opt['rho'])\n"),
+    Twin('twin-single-column-guard-not-equal', KS, "        ks_val = KSfunction.compute(con_val, opt['rho'])\n",
+         "        if opt['width'] != 1:\n            ks_val = KSfunction.compute(con_val, opt['rho'])\n        else:\n            ks_val = con_val\n"),
     Twin('twin-jax-max-keepdims-false', JAX, 'x_max = jnp.max(x)', 'x_max = jnp.max(x, keepdims=False)'),
     Twin('twin-jax-shift-in-temporary', JAX, 'x_max = jnp.max(x)\n', 'top = jnp.max(x)\n    x_max = top\n'),
     Twin('twin-jax-shift-idempotent-maximum', JAX, 'x_max = jnp.max(x)', 'x_max = jnp.maximum(jnp.max(x), jnp.max(x))'),
